@@ -23,6 +23,18 @@ class C06(Engine):
     prop = "C06"
     name = "history-sim"
     level = "exploration"
+    expected_kinds = {"history", "listing_perm", "hashseed", "path_spelling", "mixed_levels", "io_error_in_history"}
+    rule_text = ("A run is an explicit history of analyses in one process forked from a pristine zygote: all ordered pairs over a "
+                 "~50-file stress pool (every distinct fatal raise site / internal-error site reachable from the pools, state-stressing "
+                 "files, one of each ordinary class), seeded histories of length 3..8 with varying options, read faults in predecessors "
+                 "and API/CLI levels mixed, CLI-level repeated main() invocations, path spellings, rules-directory listing permutations "
+                 "(plus the whole pool under any permutation that changes the derived order of the primaries) and other PYTHONHASHSEEDs. "
+                 "Oracle: outcome and diagnostics of every op equal the same file analysed alone. Non-trivial = the history has >= 1 "
+                 "predecessor (or a non-canonical listing / hash seed / spelling); distinct = distinct (classes of the predecessors -> "
+                 "successor file) pairs, listing permutations, spellings.")
+    assumptions = ["'alone' = one analysis in a child forked from the freshly booted zygote (canonical listing, PYTHONHASHSEED=0)",
+                   "sequential histories only (the statement says 'after', 'in any order'); no synthetic aborts at arbitrary instructions",
+                   "the inconclusive class 'slow' (CPU-time cap) is never compared"]
 
     def setup(self):
         q = self.tier == "quick"
@@ -96,7 +108,22 @@ class C06(Engine):
                 ops.append({"op": "api", "file": fid, "debug": d, "R": R})
             if r.random() < 0.2:     # the same file twice
                 ops.append(dict(ops[r.randrange(len(ops))]))
-            yield 2_000_000 + i, {"kind": "hist", "probe_state": True, "ops": ops}
+            if r.random() < 0.15:    # a predecessor whose read fails in the middle of the history (I/O fault at the read seam)
+                k = r.randrange(len(ops) - 1)
+                ops[k] = dict(ops[k])
+                ops[k]["faults"] = [{"seam": "open", "call": 0, "kind": r.choice(["eio", "eacces", "enoent"])}]
+            sc = {"kind": "hist", "probe_state": True, "ops": ops}
+            if r.random() < 0.25:    # mixed levels: main() invocations interleaved with API-level analyses, one process
+                tree = {}
+                for j in range(r.randrange(1, 3)):
+                    fid = all_ids[r.randrange(len(all_ids))]
+                    nm = P.files[fid]["name"]
+                    tree[f"m{j}"] = {nm: "@" + fid}
+                    opts = OPTSETS_CLI[r.randrange(len(OPTSETS_CLI))]
+                    ops.insert(r.randrange(len(ops) + 1), {"op": "cli", "argv": list(opts) + [f"m{j}/{nm}"], "opts": list(opts)})
+                sc["tree"] = tree
+                sc["kind"] = "mixed"
+            yield 2_000_000 + i, sc
         # (c) CLI-level histories: main() invoked repeatedly in one process, 1..3 files per invocation
         n_cli = 250 if q else 6000
         for i in range(n_cli):
@@ -291,22 +318,28 @@ class C06(Engine):
         kind = sc.get("kind")
         self.count("kinds", kind)
         ops = r["ops"]
-        if kind in ("pair", "hist"):
+        if kind in ("pair", "hist", "mixed"):
             P = self.pools
             classes = []
             for op in sc["ops"]:
-                fid = op["file"]
-                classes.append(P.cls.get(fid, "?") if fid in P.files else "?")
-            self.distinct.add(("api", tuple(classes[:-1]), sc["ops"][-1]["file"]))
+                fid = op.get("file")
+                classes.append((P.cls.get(fid, "?") if fid in P.files else "?") if fid else "cli")
+                if op.get("faults"):
+                    self.fire("io_error_in_history")
+                    classes[-1] = "ioerr"
+            self.distinct.add(("api", tuple(classes[:-1]), sc["ops"][-1].get("file") or tuple(sc["ops"][-1].get("argv", []))))
+            if kind == "mixed":
+                self.fire("mixed_levels")
             self.fire("history", len(ops) - 1)
             pristine = ops[0].get("state_before")
             for i, o in enumerate(ops[1:], 1):
                 d = state_delta(pristine, o.get("state_before"))
                 if d:
                     self.count("state_vectors_seen", ",".join(d))
-                    self.tainted_after.setdefault(sc["ops"][i - 1]["file"], set()).add(tuple(d))
+                    if "file" in sc["ops"][i - 1]:
+                        self.tainted_after.setdefault(sc["ops"][i - 1]["file"], set()).add(tuple(d))
             d = state_delta(pristine, r.get("final_state"))
-            if d and len(ops) >= 1:
+            if d and len(ops) >= 1 and "file" in sc["ops"][-1]:
                 self.tainted_after.setdefault(sc["ops"][-1]["file"], set()).add(tuple(d))
             for op, o in zip(sc["ops"], ops):
                 if o.get("outcome") == "fatal" and o.get("site"):
